@@ -370,7 +370,8 @@ func runC15(r *fw.Run) {
 			listen bool
 		}{{"unix", true}, {"tcp", false}, {"unix", false}, {"tcp", true}} {
 			c15Real(r, cf.tr, cf.listen)
-			c15RealLate(r, cf.tr, cf.listen)
+			c15RealLate(r, cf.tr, cf.listen, "")
+			c15RealLate(r, cf.tr, cf.listen, []string{"early", "far"}[k%2])
 		}
 	}
 }
@@ -379,11 +380,14 @@ type c15RealCase struct {
 	Real      bool   `json:"real"`
 	Transport string `json:"transport"`
 	Listen    bool   `json:"listen"`
+	// CtxDeadline: "" (serving context without deadline) | early (its deadline passes 0.85 T after the start, i.e. inside
+	// the idle period that the late connection starts) | far (100 T)
+	CtxDeadline string `json:"ctx_deadline,omitempty"`
 }
 
 func c15Real(r *fw.Run, transport string, useListen bool) {
 	const T = 150 * time.Millisecond
-	cse := &c15RealCase{true, transport, useListen}
+	cse := &c15RealCase{Real: true, Transport: transport, Listen: useListen}
 	viol := func(class, format string, a ...interface{}) {
 		r.Violation("C15 "+class, fmt.Sprintf("real clock (%s, listen=%v, T=%v): ", transport, useListen, T)+fmt.Sprintf(format, a...), cse)
 	}
@@ -563,9 +567,9 @@ func c15Real(r *fw.Run, transport string, useListen bool) {
 // c15RealLate: the idle period counts from the last new connection, not from the start of serving. One-sided and
 // exact: a correct service re-arms the deadline after it has accepted the connection, so it cannot stop earlier than
 // T after the instant t0 at which the client began to dial.
-func c15RealLate(r *fw.Run, transport string, useListen bool) {
+func c15RealLate(r *fw.Run, transport string, useListen bool, ctxDeadline string) {
 	const T = 400 * time.Millisecond
-	cse := &c15RealCase{true, transport, useListen}
+	cse := &c15RealCase{true, transport, useListen, ctxDeadline}
 	svc, err := varlink.NewService("Verif", "IdleLate", "1", "u")
 	if err != nil {
 		return
@@ -584,6 +588,12 @@ func c15RealLate(r *fw.Run, transport string, useListen bool) {
 		network, addr = "unix", "unix:"+dial
 	}
 	ctx, cancel := context.WithCancel(context.Background())
+	switch ctxDeadline {
+	case "early":
+		ctx, cancel = context.WithTimeout(context.Background(), T*85/100)
+	case "far":
+		ctx, cancel = context.WithTimeout(context.Background(), 100*T)
+	}
 	defer cancel()
 	done := make(chan error, 1)
 	if useListen {
@@ -623,21 +633,21 @@ func c15RealLate(r *fw.Run, transport string, useListen bool) {
 			return
 		}
 		if d := stopped.Sub(t0); d < T {
-			r.Violation("C15 idle-period-not-restarted-by-connection", fmt.Sprintf("real clock (%s, listen=%v, T=%v): a client connected %v after serving started and closed again; the service stopped only %v after that client began to dial - the listener had seen a new connection within the period", transport, useListen, T, T*6/10, d.Round(time.Millisecond)), cse)
+			r.Violation("C15 idle-period-not-restarted-by-connection", fmt.Sprintf("real clock (%s, listen=%v, T=%v, serving context deadline: %q): a client connected %v after serving started and closed again; the service stopped only %v after that client began to dial - the listener had seen a new connection within the period", transport, useListen, T, ctxDeadline, T*6/10, d.Round(time.Millisecond)), cse)
 		}
 		r.Count("real_clock_late_connection_checks", 1)
 	case <-time.After(60 * T):
 		r.Violation("C15 idle-expiry-ignored", fmt.Sprintf("real clock (%s, listen=%v): no stop within 60 T after the only connection had ended", transport, useListen), cse)
 		svc.Shutdown()
 	}
-	r.Case(fw.Hash("real-late", transport, fmt.Sprint(useListen)), true)
+	r.Case(fw.Hash("real-late", transport, fmt.Sprint(useListen), ctxDeadline), true)
 }
 
 func replayC15(r *fw.Run, raw json.RawMessage) {
 	var rc c15RealCase
 	if json.Unmarshal(raw, &rc) == nil && rc.Real {
 		c15Real(r, rc.Transport, rc.Listen)
-		c15RealLate(r, rc.Transport, rc.Listen)
+		c15RealLate(r, rc.Transport, rc.Listen, rc.CtxDeadline)
 		r.Case(1, true)
 		r.Case(2, true)
 		return
@@ -657,7 +667,7 @@ func replayC15(r *fw.Run, raw json.RawMessage) {
 func init() {
 	fw.Register(&fw.Engine{
 		ID: "C15", Level: "exploration",
-		Rule: "(A) every valid history over {connect, call, close, abort mid-frame, accept-timeout expiry} up to length 5 (quick) / 10 (thorough) on a controlled listener whose deadline is virtual: SetDeadline(non-zero) arms it and the harness decides when an armed deadline expires by making the parked Accept return a timeout error. Oracle on event order: an expiry injected while a connection is verifiably open (a round trip on it just completed) must be followed by the loop re-arming the deadline and re-entering Accept, the connection still being served; an expiry injected once every connection has been closed by the service and the active count has reached 0 must make the serving call return ServiceTimeoutError with Close called on the listener; entering Accept unarmed although a timeout was requested is reported (it could never time out); every history ends with an idle expiry. A fifth of the histories run with timeout 0: the listener must never be armed, the serving call must not return by itself, Shutdown returns nil. (B) real clock, T = 150 ms, unix and TCP, Listen and Bind+DoListen, one-sided: with one connection open for 2.5 T a second client must still be served; after the last close the call must return ServiceTimeoutError within 200 T; then a dial must fail, the unix socket file must be gone, and a new service must serve the same address at once. non-trivial = history of >= 2 steps; distinct by hash of the history. A quarter of the histories afterwards serve the same object again the other way round (untimed after timed must never arm, timed after untimed must arm before every Accept); a sixth are preceded by a period that is ended by Shutdown while two connections are still open. Real clock also: 26 connections closing at the same instant; a connection made at 0.6 T must postpone the stop to at least T after the client began to dial (exact, one-sided).",
+		Rule: "(A) every valid history over {connect, call, close, abort mid-frame, accept-timeout expiry} up to length 5 (quick) / 10 (thorough) on a controlled listener whose deadline is virtual: SetDeadline(non-zero) arms it and the harness decides when an armed deadline expires by making the parked Accept return a timeout error. Oracle on event order: an expiry injected while a connection is verifiably open (a round trip on it just completed) must be followed by the loop re-arming the deadline and re-entering Accept, the connection still being served; an expiry injected once every connection has been closed by the service and the active count has reached 0 must make the serving call return ServiceTimeoutError with Close called on the listener; entering Accept unarmed although a timeout was requested is reported (it could never time out); every history ends with an idle expiry. A fifth of the histories run with timeout 0: the listener must never be armed, the serving call must not return by itself, Shutdown returns nil. (B) real clock, T = 150 ms, unix and TCP, Listen and Bind+DoListen, one-sided: with one connection open for 2.5 T a second client must still be served; after the last close the call must return ServiceTimeoutError within 200 T; then a dial must fail, the unix socket file must be gone, and a new service must serve the same address at once. non-trivial = history of >= 2 steps; distinct by hash of the history. A quarter of the histories afterwards serve the same object again the other way round (untimed after timed must never arm, timed after untimed must arm before every Accept); a sixth are preceded by a period that is ended by Shutdown while two connections are still open. Real clock also: 26 connections closing at the same instant; a connection made at 0.6 T must postpone the stop to at least T after the client began to dial (exact, one-sided), also when the serving context carries a deadline of its own that passes inside that period (0.85 T after the start) or far later.",
 		Assumptions: []string{"bounded progress: 10 s for the accept loop to take its next step", "real-clock part: only margins that hold for a correct service under any load are asserted"},
 		Run:         runC15, Replay: replayC15, CrashIsViolation: true, MinEvals: 100,
 		QuickTimeout: 15 * time.Minute, ThoroughTimeout: 60 * time.Minute,
